@@ -5,7 +5,8 @@
 """
 import json, os, re, shutil, subprocess, sys, glob, time
 VERIF = os.path.dirname(os.path.dirname(os.path.abspath(__file__)))
-ENV = dict(os.environ, GOFLAGS="-mod=mod", GOPROXY="off", GOSUMDB="off", GOTOOLCHAIN="local")
+ENV = dict(os.environ, GOFLAGS="-mod=mod", GOPROXY="off", GOSUMDB="off", GOTOOLCHAIN="local",
+           VERIF_EVIDENCE_DIR="/tmp/verif_seed_evidence")  # runs against seeded changes must not overwrite the registered evidence
 
 def sh(cmd, cwd=None, check=False, timeout=900):
     r = subprocess.run(cmd, shell=True, cwd=cwd, env=ENV, capture_output=True, text=True, timeout=timeout)
